@@ -176,7 +176,7 @@ def C01(ctx):
                 "lookup 1 and 2 with sequence_p; residue 0/1/2 with begin/end beyond the vector and partition sizes not aligned to anything) + 6-16 (6-40) audio "
                 "packets written by the model's syntax-level random encoder, all window transitions, optional end trim; the model re-parses its own headers with its "
                 "strict parser; evaluation = one packet: libvorbis must accept it, consume exactly the bits the model consumes, deliver exactly the specified number "
-                "of samples, each within 1e-4 (floor 0: 5e-3) x the block's error scale of the float64 reference decode; blocks the specification does not determine "
+                "of samples, each within 1e-4 (floor 0: 2e-2) x the block's error scale of the float64 reference decode; blocks the specification does not determine "
                 "up to single-precision rounding (near-singular floor-0 LSP, exp overflow, coupling operands that cancel to ~0, non-finite) are counted, not judged; "
                 "bucket = (stratum, block-size pair, channel class, floor types, residue types, end trim) with >=1 block judged")
     ctx.assumptions = TRUST_COMMON + ["the model (spec.c) is the largest trusted component; its writer, parser and decoder were written from the specification text only",
